@@ -153,6 +153,24 @@ def _generate(c):
     elif s.xdtype == "float32":
         s.X = s.X.astype(numpy.float32)
         s.Xq = s.Xq.astype(numpy.float32)
+    # history: the same estimator object was fitted (and queried) before on
+    # another training set; everything below is about the *last* fit
+    s.prefit = ch.boolean("w", 0.3, "fitted-before")
+    if s.prefit:
+        rs2 = numpy.random.RandomState(ch.subseed("w", "data-before"))
+        n0 = ch.integer("w", 6, 40, "n-before")
+        X0 = U.unique_rows(rs2, n0, s.d, "normal") * 1.7 + 0.3
+        if s.kind == "reg":
+            y0 = X0 @ rs2.randn(s.d) + 0.1 * rs2.randn(n0)
+        else:
+            lab = numpy.unique(s.y)
+            y0 = lab[numpy.arange(n0) % len(lab)]
+            y0 = y0[rs2.permutation(n0)]
+        if s.xdtype == "int64":
+            X0 = numpy.round(X0 * 8).astype(numpy.int64) * (n0 + 1) + numpy.arange(n0)[:, None]
+        elif s.xdtype == "float32":
+            X0 = X0.astype(numpy.float32)
+        s.X0, s.y0 = X0, y0
     s.g = ch.subseed("r", "global-seed")
     s.os_base = ch.subseed("r", "os-entropy-base")
     return s
@@ -187,6 +205,12 @@ def _execute(c, s, n_jobs, seen):
     model = _build(s, n_jobs)
     Xin = U.as_frame(s.X) if s.frame else s.X
     Xcopy, ycopy = s.X.copy(), s.y.copy()
+    if s.prefit:
+        ok0, r0 = U.sut(c, "fit(before)", model.fit, U.as_frame(s.X0) if s.frame else s.X0, s.y0)
+        if ok0:
+            for meth0 in ("predict", "transform_bins"):
+                U.sut(c, meth0 + "(before)", getattr(model, meth0), s.X0[: max(1, len(s.X0) // 2)])
+            c.probe("fitted_and_queried_before")
     if s.w is None:
         ok, r = U.sut(c, "fit", model.fit, Xin, s.y)
     else:
@@ -378,6 +402,7 @@ def run(c, index, tier):
         "X_dtype": s.xdtype,
         "query_rows": int(s.Xq.shape[0]),
         "data_seed": s.data_seed,
+        "fitted_before": s.prefit,
         "schedules": [],
     }
     c.signature = [c.scenario["estimator"], s.binner_kind, s.peer_name, s.ltype, s.w is not None, s.random_state is None, s.n // 8, s.d]
